@@ -59,7 +59,9 @@ func c18Oracle(w *world, r *worldResult) (violation, outcome string) {
 	}
 	// a pause eats into the peer's timeout together with the round trip that precedes and follows it
 	rtt := 2 * time.Duration(w.p.LatencyMs) * time.Millisecond
-	if len(r.Pauses) > 0 && longest < timeout-300*time.Millisecond-rtt && outcome != "success" {
+	// (a "timer lands first" deviation stalls the whole process for r.Sched.Stall: for the peer that is pause time too)
+	stall := r.Sched.Stall
+	if len(r.Pauses) > 0 && longest+stall < timeout-300*time.Millisecond-rtt && outcome != "success" {
 		return fmt.Sprintf("a pause of %v (timeout %v) made the transfer fail: server err %q said %q, client exit %q fail %q", longest, timeout, clipStr(r.SrvErr, 160), clipStr(said, 80), clipStr(r.ClientExit, 60), clipStr(r.ClientFail, 160)), outcome
 	}
 	if srvOK != cliOK {
@@ -89,7 +91,7 @@ func c18Oracle(w *world, r *worldResult) (violation, outcome string) {
 			if ka < pr.Begin || ka > pr.End {
 				continue
 			}
-			if last >= 0 && ka-last > 150*time.Millisecond+lat {
+			if last >= 0 && ka-last > 150*time.Millisecond+lat+stall {
 				return fmt.Sprintf("keep-alive lines %v apart during pause %d (expected at most 150 ms)", ka-last, i), outcome
 			}
 			last = ka
@@ -113,7 +115,7 @@ func c18Run(j vs.Job) *vs.JobResult {
 		b, _ := json.Marshal(j.Replay.Detail)
 		var wp wParams
 		json.Unmarshal(b, &wp)
-		w, res := runWorld(wp, vs.Config{Trace: true}, j.Replay.Choices, nil, nil)
+		w, res := runWorld(wp, vs.Config{Trace: true, ClockChoice: p.Sched > 0}, j.Replay.Choices, j.Replay.Ns, nil)
 		v, o := c18Oracle(w, res)
 		r.Notes = append(r.Notes, res.Sched.Trace...)
 		r.Notes = append(r.Notes, fmt.Sprintf("outcome=%s pauses=%+v keepalives=%v srvDone=%v@%v cliDone=%v@%v srvErr=%q said=%q exit=%q cfail=%q sfail=%q", o, res.Pauses, res.KeepAlives, res.SrvDone, res.SrvDoneAt, res.CliDone, res.CliDoneAt,
